@@ -112,16 +112,17 @@ T.update({
           "also in executions where injected delays make threads slow (never early, late by at most the injected delay); queue ends are checked against System.tla too.",
           "TLC trace validation in virtual time against TimerTrace.tla and SystemTrace.tla"),
   "C11": ("model_checking", "4 C11",
-          "Timers.tla model-checks the timer/canceller protocol (no post after the cancel returned; no deadlock; termination); real cancel_event / "
+          "Timers.tla model-checks the timer/canceller protocol (no post after the cancel returned; no deadlock; termination) and 'no post after the cancel "
+          "returned' is proved with TLAPS for any number of sources (TimersProof.tla, re-checked by tlapm in every run); real cancel_event / "
           "cancel_events calls with ids and names rebuilt from text, racing the timer threads, are validated by TimerTrace.tla (no post after the "
           "cancel returned, the other sources post exactly what is due), including a second thread that cancels by name while the first one is starting "
           "a source of that name (either order of the two calls is accepted; a later cancellation must silence the source).",
-          "TLC model checking of Timers.tla + TLC trace validation of real executions"),
+          "TLC model checking of Timers.tla + TLAPS proof for any number of sources + TLC trace validation of real executions"),
   "C12": ("model_checking", "4 C12",
           "stop() from another thread and from a handler, racing timer threads and posters: after it returns TLC checks on the recorded execution "
           "that the object's thread ended, nothing more is dispatched, none of its sources posts, and the other objects and the fabric keep running; "
           "System.tla's StopRet / NoStepAfterStop (model-checked in SystemMC.tla) are validated on the same executions at queue level.",
-          "TLC model checking of Timers.tla and SystemMC.tla + TLC trace validation (TimerTrace.tla, SystemTrace.tla)"),
+          "TLC model checking of Timers.tla and SystemMC.tla + TLAPS proof (TimersProof.tla) + TLC trace validation (TimerTrace.tla, SystemTrace.tla)"),
   "C31": ("model_checking", "4 C31",
           "With a small capacity of tracked sources, TimerTrace.tla prescribes which timed posts must be rejected and that a rejected source never "
           "posts (deferred or not) while tracked ones keep posting; validated on real executions under controlled schedules.",
@@ -143,9 +144,10 @@ T.update({
           "TLC trace validation (RoundTripTrace.tla); payload fidelity is a logged-text equality"),
   "C27": ("model_checking", "4 C27",
           "TSA.tla (descriptor protocol at the grain of lock operations and shared-field accesses) is model-checked: no foreign release, no deadlock, lock "
-          "free at the end, serial final value; real threads running reads/assignments/augmented assignments under controlled schedules (random, PCT, "
+          "free at the end, serial final value - and 'no foreign release, lock free at the end' is proved with TLAPS for any number of threads and any "
+          "programs (TSAProof.tla, re-checked by tlapm in every run); real threads running reads/assignments/augmented assignments under controlled schedules (random, PCT, "
           "systematic for all two-statement pairs) are validated by TLC, which computes the set of serial outcomes itself.",
-          "TLC model checking of TSA.tla + TLC trace validation (TSATrace.tla) with serializability computed in TLA+"),
+          "TLC model checking of TSA.tla + TLAPS proof for any number of threads + TLC trace validation (TSATrace.tla) with serializability computed in TLA+"),
   "C28": ("other", "4 C28, 7",
           "A grammar of 105 statement forms (reads in expressions and all six comparisons, augmented assignments to other variables and to the attribute "
           "for 12 operators with spacing variants, assignments, right-hand sides that call a helper which itself updates the attribute, the _lock form) is executed on real objects; TLC evaluates on each recorded result that no "
